@@ -142,19 +142,14 @@ func VF_C17_c() {
 		vf.Assert(!seen[b], ob) // no duplicate
 		seen[b] = true
 		if w.idx == 0 {
-			// a chunk is started only if its first block claims the next height ...
+			// a chunk is started only if its first block claims the next height
 			vf.Assert(b.BlockNo() == prev.BlockNo()+1, ob)
-			// ... but its parent hash is NOT compared with the previous chunk's last block
-			vf.AssertKnown(bytes.Equal(b.GetHeader().GetPrevBlockHash(), prev.GetHash()), ob, "F17-chunk-boundary-unlinked", true)
 		} else {
 			// inside a chunk: delivered right after its predecessor and hash-linked to it
 			pw := where[prev]
 			vf.Assert(j > 0 && pw.chunk == w.chunk && pw.idx == w.idx-1, ob)
 			vf.Assert(bytes.Equal(b.GetHeader().GetPrevBlockHash(), prev.GetHash()), ob)
 		}
-		// heights ancestor+1, +2, ... without gap or duplicate — holds iff the numbers inside the chunks are consecutive,
-		// which nothing checks
-		vf.AssertKnown(b.BlockNo() == a+1+uint64(j), ob, "F17-chunk-heights-unchecked", !consecutive)
 		prev = b
 	}
 	// completion: stop is requested (once, without error) exactly when the block with the target height is acknowledged
@@ -177,4 +172,22 @@ func VF_C17_c() {
 	vf.Observe("acked", acked)
 	vf.Observe("stops", stops)
 	vf.Observe("failed", failed)
+
+	// ---- the two parts of the property that the syncer itself does not enforce (checked last: the engine continues
+	// under the asserted condition)
+	prev = ancestor
+	for j, b := range delivered {
+		// heights ancestor+1, +2, ... without gap or duplicate — holds iff the numbers inside the chunks are consecutive,
+		// which nothing checks
+		vf.AssertKnown(b.BlockNo() == a+1+uint64(j), ob, "F17-chunk-heights-unchecked", !consecutive)
+		prev = b
+	}
+	prev = ancestor
+	for _, b := range delivered {
+		if where[b].idx == 0 {
+			// the parent hash of a chunk's first block is NOT compared with the previously connected block
+			vf.AssertKnown(bytes.Equal(b.GetHeader().GetPrevBlockHash(), prev.GetHash()), ob, "F17-chunk-boundary-unlinked", where[b].idx == 0)
+		}
+		prev = b
+	}
 }
